@@ -274,7 +274,13 @@ func (w *worker) checkSeq(file string, seq []add) {
 		}
 		return p
 	}
-	dump := build().Dump()
+	first := build()
+	dump := first.Dump()
+	// serialising does not use the patch set up: a second Dump of the same
+	// object gives the same bytes
+	if again := first.Dump(); !bytes.Equal(again, dump) {
+		run.Violation("second-dump-differs", fmt.Sprintf("%s: Dump() twice on one PatchSet gives %x then %x", desc, dump, again), map[string]any{"file": file, "seq": seq})
+	}
 	// round trip must parse
 	if _, err := binpatch.Load(dump); err != nil {
 		run.Violation("load-of-own-dump-fails", desc+": "+err.Error(), map[string]any{"file": file, "seq": seq})
@@ -332,7 +338,11 @@ func (w *worker) checkSeq(file string, seq []add) {
 			panic(err)
 		}
 		if direct {
-			err = build().Apply(f, dest)
+			p := build()
+			if strings.HasSuffix(strategy, "-after-dump") {
+				_ = p.Dump() // e.g. logged or sent first, then applied locally
+			}
+			err = p.Apply(f, dest)
 		} else {
 			err = signers.ApplyBinPatch(f, dest, bytes.NewReader(dump))
 		}
@@ -371,6 +381,8 @@ func (w *worker) checkSeq(file string, seq []add) {
 		applyVia("direct-same-path", true, func() string { return src })
 		applyVia("direct-other-path", true, func() string { return other })
 	}
+	// Dump puts the set in offset order, so after it the object can be applied whatever the Add order was
+	applyVia("direct-other-path-after-dump", true, func() string { return other })
 	// every proper prefix of the dump is rejected; target untouched
 	for cut := 0; cut < len(dump); cut++ {
 		if _, err := binpatch.Load(dump[:cut]); err == nil {
@@ -411,7 +423,7 @@ func hugeSplit() {
 	blobs := []string{"", "X", "XY"}
 	type call struct {
 		off, old int64
-		blob string
+		blob     string
 	}
 	checkCalls := func(calls []call) {
 		p := binpatch.New()
